@@ -31,7 +31,8 @@ ALL_SWITCHES = ["special-set-html5lib", "ruby-no-rb-rtc", "aaa-html5lib", "comma
                 "nested-table-start-not-reprocessed-in-fragment", "implied-end-tag-in-table-resets-foster-parenting",
                 "cell-caption-space-not-in-body-rules", "newline-drop-tied-to-in-body-space-handler",
                 "table-text-regardless-of-current-node", "table-text-not-flushed-by-doctype", "foster-target-test-by-name",
-                "reprocess-request-dropped-in-table-voodoo", "reset-mode-cell-context-in-fragment"]
+                "reprocess-request-dropped-in-table-voodoo", "reset-mode-cell-context-in-fragment",
+                "implied-end-tags-ignore-namespace"]
 
 
 LOOPS = []
@@ -93,27 +94,116 @@ def judge(ctx, case, fam="?"):
 
 SEEDS = ["<p>x", "<b><p>x</b>y", "<table><b>x<tr><td>y</table><p>z", "<a><div><a>x", "<math><mi><b>x</mi>y"]
 
+# G2 catalogue: context prefixes (DESIGN Appendix B)
+PREFIXES = ["", "<!DOCTYPE html>", "<html>", "<head>", "<head><noscript>", "<head></head>", "<body>", "<p>", "<h1>", "<ul><li>", "<dl><dt>", "<dl><dd>",
+            "<button>", "<a>", "<nobr>", "<form>", "<pre>", "<listing>", "<b><i>", "<b><b><b><b>", "<b><p>", "<b><i><u><s><tt><p>", "<b>" * 9 + "<p>",
+            "<applet><b>", "<marquee>", "<object>", "<ruby>", "<ruby><rt>", "<ruby><rtc><rt>", "<option>", "<optgroup>", "<div><span>", "<p><b></p>",
+            "<main>", "<details><summary>", "<title>", "<textarea>", "<style>", "<script>", "<xmp>", "<iframe>", "<noembed>", "<noframes>", "<noscript>",
+            "<plaintext>", "<table>", "<table>x", "<table> ", "<table><caption>", "<table><colgroup>", "<table><tbody>", "<table><tr>", "<table><tr><td>",
+            "<table><tr><th><b>", "<table><b>", "<table><b><p>", "<a><table><a>", "<select>", "<select><option>", "<select><optgroup><option>",
+            "<table><tr><td><select>", "<table><select>", "<body></body>", "<body></body></html>", "<frameset>", "<frameset><frameset>",
+            "<frameset></frameset>", "<frameset></frameset></html>", "<svg>", "<svg><g>", "<svg><foreignObject>", "<svg><desc>", "<svg><title>", "<math>",
+            "<math><mi>", "<math><mtext><b>", "<math><annotation-xml>", "<math><annotation-xml encoding=text/html>", "<table><svg>", "<select><svg>",
+            "<svg><script>", "<svg><style>", "<!DOCTYPE html PUBLIC \"-//W3C//DTD HTML 3.2//EN\"><p>", "<table><tr><td><b><p>", "<li><div>", "<dd><address>",
+            "<table><caption><b>", "<table><tbody><svg>", "<template>", "<h1><b>", "<a><p>", "<nobr><p>", "<button><p>", "<form><table>", "<table><form>"]
+PROBE_TEXT = ["x", " ", "\t", "\n", "\x0c", "\x00", "&amp;", "x y", " x", "<!--c-->", "<!DOCTYPE html>", ""]
+SUFFIXES = ["y<!--z-->", "<b>y</b><p>z"]
+
+
+def probes():
+    out = list(PROBE_TEXT)
+    for nm in sorted(set(gen.ALL_TAGS)):
+        if nm != nm.lower() or any(ord(c) > 127 for c in nm):
+            continue
+        out.append("<%s>" % nm)
+        out.append("</%s>" % nm)
+    out += ["<input type=hidden>", "<input type=HIDDEN>", "<input type=text>", "<font color=x>", "<font size=1>", "<font x=y>", "<a href=x>", "<b id=1>",
+            "<br/>", "<svg/>", "<math/>", "<g/>", "<annotation-xml encoding=TEXT/HTML>", "<annotation-xml encoding=x>", "<html lang=en>", "<body class=c>",
+            "<mglyph>", "<malignmark>", "<img>", "<image>", "</br>", "</p>", "<td>", "<th>", "<tr>", "<caption>", "<col>", "<colgroup>", "<tbody>", "<tfoot>", "<thead>"]
+    return out
+
 
 def shard(ctx):
+    from .. import h5
     k = 0
     for s in SEEDS:
         k += 1
         if ctx.mine(k):
             judge(ctx, {"input": s, "container": None, "scripting": False}, "seed")
+    pr = probes()
+    ctxs = gen.CONTEXTS
+    for pi, pre in enumerate(PREFIXES):
+        for qi, q in enumerate(pr):
+            k += 1
+            if not ctx.mine(k):
+                continue
+            for suf in SUFFIXES:
+                scr = bool((pi + qi) % 2)
+                judge(ctx, {"input": pre + q + suf, "container": None, "scripting": scr}, "walk-document")
+            # fragment: the same probe in a rotating context element
+            cont = ctxs[(pi * 7 + qi) % len(ctxs)]
+            judge(ctx, {"input": pre + q + SUFFIXES[qi % 2], "container": cont, "scripting": bool(qi % 2)}, "walk-fragment")
+    # every fragment context x a small probe set (reset-the-insertion-mode and tokenizer start state per context)
+    small = ["x", " x ", "<td>x", "<tr><td>x", "<option>x", "</select>x", "<b>x</p>y", "<svg><p>x", "<table><td>x", "<col>", "<caption>x", "<frame>",
+             "<frameset>", "</body>x", "</html>x", "<head>x", "<body a=b>x", "<html a=b>x", "<form>x", "&amp;</title>x", "<!--c-->", "\x00x"]
+    for ci, cont in enumerate(ctxs):
+        for qi, q in enumerate(small):
+            k += 1
+            if ctx.mine(k):
+                judge(ctx, {"input": q, "container": cont, "scripting": bool((ci + qi) % 2)}, "contexts")
     n, idx = 0, ctx.i
-    limit = (60000 if ctx.tier == "quick" else 3000000) // ctx.n
+    limit = (100000 if ctx.tier == "quick" else 5000000) // ctx.n
     t_end = time.time() + ctx.time_left()
     while n < limit and time.time() < t_end:
         rng = ctx.rng("rand", idx)
         idx += ctx.n
         n += 1
-        data = gen.nesting(rng) if rng.random() < 0.5 else gen.soup(rng, 20)
+        r = rng.random()
+        data = gen.nesting(rng) if r < 0.4 else (gen.soup(rng, 20 if ctx.tier == "quick" else 60) if r < 0.8 else gen.foreign_collide(rng))
         frag = rng.random() < 0.3
         case = {"input": data, "container": rng.choice(gen.CONTEXTS) if frag else None, "scripting": rng.random() < 0.3}
         judge(ctx, case, "random")
+        if n % 50 == 0:
+            determinism(ctx, case)
         if n <= 3 and ctx.i == 0:
             ctx.sample(case)
+    modes_seen(ctx)
     report_loops(ctx)
+
+
+def determinism(ctx, case):
+    """Same call twice in this process (fresh parser objects) must give the same tree and errors."""
+    from .. import h5
+    res = []
+    for _ in range(2):
+        try:
+            if case.get("container") is not None:
+                f, p, t = h5.parse_frag(case["input"], container=case["container"], scripting=case.get("scripting", False))
+            else:
+                f, p, t = h5.parse_doc(case["input"], scripting=case.get("scripting", False))
+            res.append((f, h5.errors_of(p)))
+        except Exception as e:
+            res.append(("exc", type(e).__name__))
+    ctx.count("determinism_checked")
+    if res[0] != res[1]:
+        ctx.violation("non-deterministic", case, "two runs of the same call differ")
+
+
+def modes_seen(ctx):
+    """Coverage accounting from HTMLParser(debug=True).log over the prefix catalogue (evidence only)."""
+    from .. import h5
+    from html5lib import html5parser
+    if ctx.i != 0:
+        return
+    for pre in PREFIXES:
+        try:
+            p = html5parser.HTMLParser(h5.tb("etree"), debug=True)
+            p.parse(pre + "x<b>y</b>")
+            for (tstate, phase, handling, method, info) in p.log:
+                ctx.add("insertion_modes_seen", phase)
+                ctx.add("mode_token_pairs_seen", "%s:%s:%s" % (handling, info.get("type"), info.get("name", "")) if info.get("type") in ("StartTag", "EndTag") and False else "%s:%s" % (handling, info.get("type")))
+        except Exception:
+            pass
 
 
 def report_loops(ctx):
@@ -127,4 +217,14 @@ def replay(ctx, case):
 
 
 def finalize(m, v):
-    return {}
+    c = m["counters"]
+    modes = m["sets"].get("insertion_modes_seen", set())
+    if len(modes) < 21:
+        m["inconclusive"].append("only %d insertion modes seen in the prefix catalogue (< 21)" % len(modes))
+    if c.get("cases:walk-document", 0) < len(PREFIXES) * 300:
+        m["inconclusive"].append("directed walk incomplete (%d cases)" % c.get("cases:walk-document", 0))
+    if c.get("model_loops", 0):
+        m["inconclusive"].append("the reference model hit its reprocess-loop guard %d times" % c["model_loops"])
+    if c.get("determinism_checked", 0) < 500:
+        m["inconclusive"].append("determinism clause checked fewer than 500 times")
+    return {"prefixes": len(PREFIXES), "probes": len(probes()), "insertion_modes_seen": len(modes)}
